@@ -48,6 +48,7 @@ def build(vacuity=False):
         fn("any.select", "strategy/any.rs", "AnyStrategyAdapter", "select", trait="StrategyAdapter"),
         fn("fill.select", "strategy/player_fill.rs", "PlayerFillStrategyAdapter", "select", trait="StrategyAdapter", search_types=["Option<(u32, (&Target, u32))>"]),
         fn("meta.new", "filter/meta.rs", "MetaFilterAdapter", "new"),
+        fn("meta.add_rule", "filter/meta.rs", "MetaFilterAdapter", "add_rule", rules=RULES + ["mut_self"]),
         fn("option.new", "filter/option.rs", "OptionFilterAdapter<T>", "new"),
         fn("allow.new", "filter/player_allow.rs", "PlayerAllowFilterAdapter", "new"),
         fn("block.new", "filter/player_block.rs", "PlayerBlockFilterAdapter", "new"),
@@ -129,10 +130,10 @@ def build(vacuity=False):
     impl("impl StrategyAdapter for PlayerFillStrategyAdapter", ["fill.select"], S + " { fill_selected_ok(*self, ts, r) }")
     # derives dropped by R2 that the code relies on
     u.raw("    impl Default for AnyStrategyAdapter { fn default() -> Self { AnyStrategyAdapter {} } }\n")
-    for k in ["meta.new", "option.new", "allow.new", "block.new", "fill.new", "any.new", "app.dyn_from_config", "app.dyns_from_config", "app.strat_from_config",
+    for k in ["meta.new", "meta.add_rule", "option.new", "allow.new", "block.new", "fill.new", "any.new", "app.dyn_from_config", "app.dyns_from_config", "app.strat_from_config",
               "app.opt_to_regex", "app.opt_vec_to_uuid"]:
         ex[k]["vis"] = ""
-    impl("impl MetaFilterAdapter", ["meta.new"])
+    impl("impl MetaFilterAdapter", ["meta.new", "meta.add_rule"])
     impl("impl<T> OptionFilterAdapter<T>", ["option.new"])
     impl("impl PlayerAllowFilterAdapter", ["allow.new"])
     impl("impl PlayerBlockFilterAdapter", ["block.new"])
